@@ -23,7 +23,7 @@ WORKERS = int(os.environ.get("VERIF_INPUTS_WORKERS", "4"))     # TLC workers of 
 SHARDS = int(os.environ.get("VERIF_INPUTS_SHARDS", "4"))       # parallel trace-validation TLC processes
 
 SPEC_MODULES = [("CompactStream", "CompactStream"), ("CompactStream", "CompactStreamTrace"),
-                ("Spans", "Spans"), ("Spans", "SpansTrace")]
+                ("Spans", "Spans"), ("Spans", "SpansTrace"), ("L0Sublevels", "L0Sublevels"), ("L0Sublevels", "L0SublevelsTrace")]
 
 
 def specdir(d):
@@ -405,6 +405,117 @@ C32_TEXT = ("The declarative TLA+ module Spans defines per-key coverage of a set
             "iteration directions, consistent under SeekGE/SeekLT, and that the keys covering every user key are exactly those of the input spans "
             "covering it (restricted to the bounds for truncation, united over levels for merging).")
 
+# ---------------------------------------------------------------------------------------
+# C16
+L0 = specdir("L0Sublevels")
+L0_BUGS = ["SubMinNotMax", "PickNotTransitive", "PickCompacting", "IntraNotClosedUp"]
+_RE_NOTEXEC = re.compile(r'"?NOTEXECUTED"?,\s*(\d+)')
+
+
+def l0_consts(nkeys, maxfiles, marks, emit=True):
+    return dict(NKeys=nkeys, MaxFiles=maxfiles, Marks=tla_set(marks), BugMode='"none"', Emit="TRUE" if emit else "FALSE")
+
+
+def l0_trace_cfg(nkeys):
+    return cfg_text("TraceSpec", l0_consts(nkeys, 0, [], emit=False), extra="CONSTRAINT HWM\nPOSTCONDITION TraceAccepted\n")
+
+
+def run_c16(run):
+    quick = run.tier == "quick"
+    vlib.sany(L0, "L0Sublevels")
+    vlib.sany(L0, "L0SublevelsTrace")
+    run_bugs(run, L0, "L0Sublevels", L0_BUGS)
+    binp = vlib.build_driver("internal/manifest")
+    if quick:
+        scopes = [("3 user keys, <=3 L0 files, all ranges/flush groups, every compacting marking {none,base,intra}", l0_consts(3, 3, [0, 1, 2])),
+                  ("4 user keys, <=4 L0 files, no compacting files", l0_consts(4, 4, [0]))]
+        nrandom = 4000
+    else:
+        scopes = [("4 user keys, <=4 L0 files, every compacting marking", l0_consts(4, 4, [0, 1, 2])),
+                  ("5 user keys, <=5 L0 files, no compacting files", l0_consts(5, 5, [0]))]
+        nrandom = 100000
+    tdir = vlib.scratch("verif.c16.")
+    total_acc = total_vac = total_rej = 0
+    allpairs = []
+    for i, (name, consts) in enumerate(scopes):
+        r, cases = design_emit(run, L0, "L0Sublevels", "L0Sublevels/" + name, cfg_text("Spec", consts, invariants=["Inv", "EmitInv"]))
+        if not cases:
+            raise vlib.Inconclusive("TLC emitted no inputs for scope " + name)
+        cf = os.path.join(tdir, "cases%d.jsonl" % i)
+        with open(cf, "w") as f:
+            for c in cases:
+                f.write(json.dumps(c, separators=(",", ":")) + "\n")
+        tf = os.path.join(tdir, "trace%d.ndjson" % i)
+        rc, out = vlib.run_driver(binp, "TestVInputsL0$", env=dict(VERIF_OUT=tf, VERIF_CASES=cf, VERIF_SEED=str(run.seed)), timeout=1500)
+        if "DRIVER-DONE" not in out:
+            raise vlib.Inconclusive("manifest TestVInputsL0 died:\n" + out[-3000:])
+        pairs = read_pairs(tf)
+        if len(pairs) != len(cases):
+            raise vlib.Inconclusive("driver executed %d of %d emitted inputs" % (len(pairs), len(cases)))
+        acc, vac, rej = validate_pairs(run, L0, "L0SublevelsTrace", l0_trace_cfg(consts["NKeys"]), pairs, "tlc:" + name)
+        if vac:
+            raise vlib.Inconclusive("TLC-emitted inputs judged inadmissible by the trace spec (%d)" % vac)
+        total_acc += acc; total_rej += rej
+        allpairs += pairs
+    RNK = 6
+    tf = os.path.join(tdir, "random.ndjson")
+    rc, out = vlib.run_driver(binp, "TestVInputsL0$", env=dict(VERIF_OUT=tf, VERIF_RANDOM=str(nrandom), VERIF_SEED=str(run.seed),
+                                                              VERIF_NKEYS=str(RNK), VERIF_MAXFILES="7"), timeout=1500)
+    if "DRIVER-DONE" not in out:
+        raise vlib.Inconclusive("manifest TestVInputsL0 (random) died:\n" + out[-3000:])
+    rpairs = read_pairs(tf)
+    tcfg = l0_trace_cfg(RNK)
+    acc, vac, rej = validate_pairs(run, L0, "L0SublevelsTrace", tcfg, rpairs, "random 6 user keys <=7 L0 files, random compacting marks")
+    total_acc += acc; total_vac += vac; total_rej += rej
+    if total_rej == 0:
+        good = None
+        for a, b in rpairs:
+            c, o = json.loads(a)["c"], json.loads(b)["o"]
+            if len(c["files"]) >= 3 and all(f["c"] == 0 for f in c["files"]) and max(x["sl"] for x in o["sub"]) >= 1:
+                good = (a, b)
+                break
+        if not good:
+            raise vlib.Inconclusive("binding demo: no suitable accepted case")
+        o = json.loads(good[1])
+        top = max(o["o"]["sub"], key=lambda x: x["sl"])
+        for x in o["o"]["sub"]:
+            if x["id"] == top["id"]:
+                x["sl"] = 0
+        demo(run, L0, "L0SublevelsTrace", tcfg, good, (good[0], json.dumps(o, separators=(",", ":"))),
+             "the logged sublevel of the topmost file set to 0")
+    allpairs += rpairs
+    run.traces += total_acc
+    run.cov["evaluations"] = total_acc - total_vac
+    nontriv = {in_hash(a) for a, b in allpairs if len(json.loads(a)["c"]["files"]) >= 2}
+    run.cov["distinct_nontrivial"] = max(0, len(nontriv) - total_vac)
+    run.cov["vacuous_inadmissible_random_inputs"] = total_vac
+    run.cov["exhaustive"] = [n for n, _ in scopes]
+    run.cov["rule"] = ("evaluations = cases (an L0 file set with compacting marks given to the real newL0Sublevels, to addL0Files at every split point "
+                       "one file at a time and in one chunk, and to PickBaseCompaction / PickIntraL0Compaction for minCompactionDepth 1..3 and every "
+                       "earliestUnflushedSeqNum) on which TLC evaluated L0Ok(in,out); distinct_nontrivial = distinct inputs with >= 2 files minus the "
+                       "inadmissible count. Scopes in 'exhaustive' are fully enumerated by TLC; random: seeded, 6 user keys, <=7 files.")
+    for a, b in (allpairs[len(allpairs) // 3], rpairs[1]):
+        o = json.loads(b)["o"]
+        run.sample({"in": json.loads(a)["c"], "out": {"sub": o["sub"], "incremental_variants": len(o["inc"]), "picks": [p for p in o["picks"] if not p["none"]][:4]}})
+    run.assumptions += [
+        "overlapping L0 files have disjoint seqnum ranges; files of one flush (same range) are key-disjoint",
+        "files already marked compacting form closed picks themselves (admissible markings); other markings are vacuous",
+        "a PickBaseCompaction candidate containing an intra-L0-compacting file is treated as not executed (pebble's pickL0 drops it in setupInputs); "
+        "such candidates DO occur on the unchanged tree (baseCompactionUsingSeed stacks seed-interval files without an IsCompacting check) and are reported "
+        "to the lead as a finding; they must still contain no file compacting to Lbase",
+        "Lbase is empty in the pick calls (no conflicts with Lbase compactions are modelled)",
+        "TLC's verdict on each case is authoritative; the Go driver only executes and records",
+    ]
+
+
+C16_TEXT = ("The declarative TLA+ module L0Sublevels defines Sublevel(f) = 1 + max sublevel of the older files overlapping f, soundness of a sublevel "
+            "assignment, and closedness of a pick. TLC enumerates every small set of L0 files (ranges, flush groups, compacting markings), checks the "
+            "module's reference operators, and emits the inputs; each is given to the real newL0Sublevels, to addL0Files at every split point, and to "
+            "PickBaseCompaction / PickIntraL0Compaction for several depths and flush horizons; TLC validates on the real results that overlapping files "
+            "are in distinct sublevels ordered by seqnum, a sublevel never holds overlapping files, the assignment equals the definition, every "
+            "incremental construction equals the batch one, and every executed pick contains no compacting file and leaves no older overlapping "
+            "file above / newer one below its output.")
+
 C17_TEXT = ("The declarative TLA+ module CompactStream defines, for a sorted internal-key stream restricted to a view, the transformer it "
             "applies to any lower-level state (SET const, DEL/DELSIZED/SINGLEDEL/covering RANGEDEL const-absent, MERGE append; range keys per "
             "suffix). TLC enumerates every input of the stated small scopes (all point kinds incl. SETWITHDEL/DELSIZED, range deletions, range "
@@ -421,3 +532,4 @@ INPUTS_TECH = "declarative TLA+ definition used as generator and oracle: TLC-enu
 def REGISTER(reg):
     reg("C17", "Compaction output preserves every snapshot's view", run_c17, C17_TEXT, INPUTS_NOTE, INPUTS_TECH, "DESIGN 6/C17", engine="inputs")
     reg("C32", "Span fragmentation preserves coverage exactly", run_c32, C32_TEXT, INPUTS_NOTE, INPUTS_TECH, "DESIGN 6/C32", engine="inputs")
+    reg("C16", "L0 sublevels are sound and compaction picks are closed", run_c16, C16_TEXT, INPUTS_NOTE, INPUTS_TECH, "DESIGN 6/C16", engine="inputs")
